@@ -395,45 +395,46 @@ fn enclosing_construct(cst: &Cst<'_>, pos: usize) -> String {
     }
 }
 
-/// Signature of the inter-token gap of `f1` in which `f1` and `f2` first differ.
+/// Signature of the inter-token gap of `f1` in which `f1` and `f2` first differ: (kind of the
+/// first comment in the gap, class of the token before, class of the token after, newline before /
+/// after that comment, enclosing construct).  Coarse on purpose: one formatter
+/// defect should give few keys, a new shape of instability a new key.
 fn gap_signature(f1: &str, f2: &str, cst1: &Cst<'_>) -> String {
     let pos = f1.bytes().zip(f2.bytes()).take_while(|(a, b)| a == b).count().min(f1.len());
     let l = lex(f1);
-    let Some(mut i) = l.at(pos) else { return "empty".into() };
-    // a difference inside a solid token is attributed to the gap before it
-    if !is_trivia(l.kinds[i]) && i > 0 {
-        i -= 1;
-    }
-    let (mut lo, mut hi) = (i, i);
+    let Some(i) = l.at(pos) else { return "empty".into() };
+    // a difference inside a solid token is attributed to the (possibly empty) gap before it
+    let (mut lo, mut hi) = if is_trivia(l.kinds[i]) { (i, i + 1) } else { (i, i) };
     while lo > 0 && is_trivia(l.kinds[lo - 1]) {
         lo -= 1;
     }
-    while hi + 1 < l.kinds.len() && is_trivia(l.kinds[hi + 1]) {
+    while hi < l.kinds.len() && is_trivia(l.kinds[hi]) {
         hi += 1;
     }
-    let gap: Vec<usize> = (lo..=hi).filter(|j| is_trivia(l.kinds[*j])).collect();
-    let comments: Vec<String> = gap
-        .iter()
-        .filter(|j| l.kinds[**j] != Token::Whitespace)
-        .map(|j| kind_name(l.kinds[*j]))
-        .collect();
-    let gap_text = |r: std::ops::Range<usize>| r.map(|j| &f1[l.spans[j].clone()]).collect::<String>();
-    let first_comment = gap.iter().position(|j| l.kinds[*j] != Token::Whitespace);
-    let last_comment = gap.iter().rposition(|j| l.kinds[*j] != Token::Whitespace);
-    let (nlb, nla) = match (first_comment, last_comment) {
-        (Some(a), Some(b)) => (
-            gap_text(gap[0]..gap[a]).contains('\n'),
-            gap_text(gap[b] + 1..gap[gap.len() - 1] + 1).contains('\n') || l.kinds[gap[b]] != Token::BlockComment,
-        ),
-        _ => (gap.iter().any(|j| f1[l.spans[*j].clone()].contains('\n')), false),
+    let gap: Vec<usize> = (lo..hi).filter(|j| is_trivia(l.kinds[*j])).collect();
+    let text_of = |js: &[usize]| js.iter().map(|j| &f1[l.spans[*j].clone()]).collect::<String>();
+    let (comment, nl_before, nl_after) = match gap.iter().position(|j| l.kinds[*j] != Token::Whitespace) {
+        Some(c) => {
+            let block = l.kinds[gap[c]] == Token::BlockComment;
+            let after = gap.get(c + 1).filter(|j| l.kinds[**j] == Token::Whitespace);
+            (
+                if block { "block" } else { "line" }, // `//` and `///` take the same formatter paths
+                text_of(&gap[..c]).contains('\n'),
+                !block || after.is_some_and(|j| f1[l.spans[*j].clone()].contains('\n')),
+            )
+        }
+        None => ("none", text_of(&gap).contains('\n'), false),
+    };
+    let next = match l.next_solid(hi) {
+        None => "none",
+        Some(Token::Semi | Token::RPar | Token::RBrak) => "close",
+        Some(_) => "item",
     };
     format!(
-        "comments={}:prev={}:next={}:nl-before={}:nl-after={}:in={}",
-        if comments.is_empty() { "none".to_string() } else { comments.join("+") },
+        "comment={comment}:prev={}:next={next}:nl-before={}:nl-after={}:in={}",
         class(l.prev_solid(lo)),
-        class(l.next_solid(hi + 1)),
-        nlb as u8,
-        nla as u8,
+        nl_before as u8,
+        nl_after as u8,
         enclosing_construct(cst1, pos)
     )
 }
